@@ -34,6 +34,12 @@ CHECKS = {
          "Exhaustive grid of gate counts and capacities on both sides (and 1..3 parties): insufficient-generators error exactly below the padded threshold, never a panic, proof bytes independent of slack, accept at and above the threshold."),
  "C18": ("exploration", "3.C18", "replay of persisted artefacts of the reference revision (proofs, commitments, wrong statements, schedules, generator digests) on the current tree, plus fresh sessions against the recorded schedule",
          "Durability-across-upgrade: what the reference revision wrote must still be read and mean the same. Fixtures recorded once from the reference revision; the reference models stand in for the other version in mixed-version pairs."),
+ "C09": ("exploration", "3.C09", "RNG-seam simulation: recorded RNG life cycle, role attribution by single-draw fault injection, algebraic opening against an independent reference prover",
+         "Keying of the transcript RNG is read from the recorded operations; every RNG draw is perturbed in turn to attribute it to a blinding role through the first proof component that moves (by delta times B~, G_i or H_i); the map must be total, injective, non-zero, distinct; RefProver then reproduces every proof component from (witness, challenges, attributed nonces). Independence and replayability across external seeds, incl. stuck external RNG."),
+ "C10": ("exploration", "3.C10", "sub-protocol session simulation with a reference prover and verifier that fold generators explicitly; tamper catalogue",
+         "The created proof must equal the reference folding round by round for k in 0..=7 over vector/factor families; every tampered variant is judged by real verify and by explicit folding; verdicts must coincide, degenerate identity cross terms are rejected by both."),
+ "C15": ("exploration", "3.C15", "session-simulation workload profile: one-constraint circuits over random expression trees, model evaluator as oracle, statement-constant fault",
+         "Weakest fit (operators are pure functions): the observation point is the verdict of a complete two-party run, the oracle is the model's own AST evaluator; accept leg and off-by-delta reject leg; per-operator-impl probes."),
 }
 
 NOT_APPLICABLE = {
